@@ -35,10 +35,20 @@ Theorem fresh_dataset_satisfies_inv : forall rows dfc sc t s, inv (fresh rows df
 Proof. exact fresh_inv_proof. Qed.
 Print Assumptions fresh_dataset_satisfies_inv.
 
-Theorem materialize_aligns : forall d, materialized d = false ->
-  materialized (materialize d) = true /\ aligned (materialize d) /\ df (materialize d) = df d.
+(* materialize() of an unmaterialized dataset, when it succeeds, yields the same
+   rows and columns, materialized and aligned; in this model it succeeds exactly
+   when every col_to_stype column names one column of the frame (it can name two
+   after col_select with a repeated name: the real code raises there too).
+   Other reasons for materialization to fail are C01's subject, not modelled. *)
+Theorem materialize_aligns : forall d d', materialized d = false -> materialize d = Some d' ->
+  materialized d' = true /\ aligned d' /\ df d' = df d /\
+  df_cols d' = df_cols d /\ stype_cols d' = stype_cols d.
 Proof. exact materialize_aligned_proof. Qed.
 Print Assumptions materialize_aligns.
+
+Theorem materialize_defined : forall d, columns_unique d -> exists d', materialize d = Some d'.
+Proof. exact materialize_defined_proof. Qed.
+Print Assumptions materialize_defined.
 
 (* "materialize, then any finite sequence ...": everything reachable from a
    materialized dataset is materialized and aligned *)
@@ -50,7 +60,11 @@ Print Assumptions aligned_after_any_history_materialized.
 
 (* the DataFrame's index labels are never consulted: relabelling the rows by
    any function commutes with every history (so the selected row ids and split
-   values cannot depend on the labels) *)
+   values cannot depend on the labels).  NOTE: no function of Model/Dataset.v
+   reads `label`, so this holds of the model by construction; that the real
+   code behaves like the model under every labelling (RangeIndex, offset,
+   permuted, string, duplicated, sparse, negative) is what the correspondence
+   and the oracle OBSERVE on every run. *)
 Theorem labels_never_consulted : forall (f : lbl -> lbl) (ops : list op) (d : ds),
   run (relabel f d) ops = option_map (relabel f) (run d ops).
 Proof. exact run_relabel. Qed.
@@ -177,7 +191,15 @@ Print Assumptions get_split_legacy_refuted.
 (* Operations applied as a tree to any earlier dataset of the store: every
    older entry is unchanged, except that `materialize` (which mutates its
    receiver in the Python) replaces its target by its materialized self; and
-   every dataset in the store satisfies the invariant. *)
+   every dataset in the store satisfies the invariant.
+   NOTE: the model is purely functional - nothing that copy.copy shares between
+   the Python objects (frame buffers, the `_col_stats` dict) is represented - so
+   "unchanged" is true of the model by construction.  For the REAL objects this
+   clause is OBSERVED, not proved: harness/c09.py snapshots every existing
+   dataset (index labels, every DataFrame id column, split values, columns,
+   col_to_stype keys, target_col / split_col / is_materialized / len, every
+   TensorFrame column and y, col_stats keys) before and after EVERY operation
+   of every history and reports `source-modified:*` on any difference. *)
 Theorem derived_never_alter_their_source : forall (prog : list tstep) (store : list (option ds)),
   Forall oinv store ->
   Forall oinv (fst (tree_run store prog)) /\
@@ -206,8 +228,9 @@ Theorem split_before_materialization_raises : forall d, materialized d = false -
 Proof. exact split3_gate. Qed.
 Print Assumptions split_before_materialization_raises.
 
+(* (only the gate of col_stats is modelled, not the statistics) *)
 Theorem reads_after_materialization : forall d, materialized d = true -> aligned d ->
-  tensor_frame d = Some (map rid (df d)) /\ col_stats d = Some (stype_cols d).
+  tensor_frame d = Some (map rid (df d)) /\ col_stats d = Some tt.
 Proof. exact tensor_frame_after_proof. Qed.
 Print Assumptions reads_after_materialization.
 
@@ -223,13 +246,20 @@ Print Assumptions col_select_after_materialization_raises.
    columns plus the target and nothing else, all of them existing columns *)
 Theorem col_select_keeps_target : forall d cols d',
   col_select d cols = Some d' ->
-  df d' = df d /\ target_col d' = target_col d /\ df_cols d' = stype_cols d' /\
+  df d' = df d /\ target_col d' = target_col d /\
   (forall c, In c cols -> In c (df_cols d')) /\
   (forall c, In c (df_cols d') -> In c (df_cols d) /\ In c (stype_cols d)) /\
   (forall t, target_col d = Some t -> In t (df_cols d')) /\
   (forall c, In c (df_cols d') -> In c cols \/ target_col d = Some c).
 Proof. exact col_select_keeps. Qed.
 Print Assumptions col_select_keeps_target.
+
+(* col_to_stype of the result names the same columns as its frame (a repeated
+   request keeps the repetition in the frame only) *)
+Theorem col_select_stype_keys : forall d cols d', col_select d cols = Some d' ->
+  forall c, In c (stype_cols d') <-> In c (df_cols d').
+Proof. exact col_select_stype_keys_proof. Qed.
+Print Assumptions col_select_stype_keys.
 
 (* ================================================================== *)
 (* 5. generate_random_split                                            *)
@@ -308,7 +338,11 @@ Section SplitGenerator.
 
   (* then: length n, labels in {0,1,2}, exactly a / b / c rows of each label, a
      rearrangement of the blocks - and the arrangement is `np_perm seed n`, a
-     function of the seed (and length) alone *)
+     function of the seed (and length) alone.  NOTE: that numpy's arrangement
+     depends on (seed, length) only - not on the prior global RNG state nor on
+     the array's values - is carried by the TYPE of np_perm, i.e. it is an
+     assumption next to H_shuffle_perm, validated by the harness on every case
+     (two prior states; the arrangement measured on arange(n)) *)
   Theorem split_counts_labels_length : forall seed n a b c (arr : list Z),
     a + b + c = n -> apply_perm (np_perm seed n) (blocks a b c) = Some arr ->
     length arr = n /\
